@@ -142,9 +142,13 @@ func C06_Limits() {
 	d := verif.Choice("delta", 3) - 1
 	var src string
 	switch k {
-	case 0: // operand stack depth 1024
+	case 0: // operand stack depth 1024; the value that does not fit is a literal or a variable
 		n := 1024 + d
-		src = "print " + strings.Repeat("1+(", n-1) + "1" + strings.Repeat(")", n-1)
+		if verif.Choice("inner", 2) == 0 {
+			src = "print " + strings.Repeat("1+(", n-1) + "1" + strings.Repeat(")", n-1)
+		} else {
+			src = "var x = 2\nprint " + strings.Repeat("1+(", n-2) + "x" + strings.Repeat(")", n-2)
+		}
 	case 1: // block nesting 16
 		n := 16 + d
 		src = strings.Repeat("def b {", n) + strings.Repeat("}", n)
@@ -156,7 +160,10 @@ func C06_Limits() {
 			sb.WriteString(itoa(i))
 			sb.WriteString("\n")
 		}
-		sb.WriteString("print 1\n")
+		// the next push: each kind of instruction that pushes
+		last := []string{"print 1\n", "print v0\n", "print v0 + v1\n", "print true\n", "print \"s\"\n", "print 77\n", "print -v1\n",
+			"def t {\n f = 1\n g = f\n}\n", "def t {\n var w = v0\n}\n"}
+		sb.WriteString(last[verif.Choice("push", len(last))])
 		src = sb.String()
 	case 3: // jump distance 65535
 		n := (65535+d*3)/3 + 1
